@@ -683,18 +683,24 @@ def gen_callback(cx, cbt, ct, abi, pname):
         raise Mismatch("%s: callback return type disagrees (Rust %s, C %r)" % (abi, cbt.ret.rust() if cbt.ret else "()", fn.ret))
     v = cx.fresh("cb")
     args = ["_data: %s" % mtype(cm, fn.params[0], cx.names)]
-    logs = []
+    logs = ["let got = vs::cb_seen();"]
     for i, (pt, cpt) in enumerate(zip(cbt.params, fn.params[1:])):
         args.append("a%d: %s" % (i, mtype(cm, cpt, cx.names)))
-        logs.append("vs::cb_seen().push(%s);" % c_leaf(cm, cpt, "a%d" % i))
+        # what the foreign callback receives, read through the header's parameter type
+        logs += gen_ret(cx, pt, cpt, "a%d" % i, "cbarg%d" % i, "field").got
     if cbt.ret is not None:
         RT = mtype(cm, fn.ret, cx.names)
         if fn.ret.kind == "float":
             retexpr = "%s::from_bits(vs::CB_RET as _)" % RT
         elif fn.ret.kind == "bool":
             retexpr = "(vs::CB_RET & 1 == 1)"
+        elif fn.ret.kind == "enum":
+            consts = cm.enums[fn.ret.tag]["consts"]
+            retexpr = "match vs::CB_RET & 7 { %s _ => %d }" % (" ".join("%d => %d," % (i, c[1]) for i, c in enumerate(consts[:-1])), consts[-1][1])
         else:
             retexpr = "vs::CB_RET as %s" % RT
+        if not isinstance(cbt.ret, (Prim, EnumT)) or fn.ret.kind not in ("int", "float", "bool", "enum"):
+            raise Unsupported("callback return type %s" % cbt.ret.rust())
         sig_ret = " -> %s" % RT
     else:
         retexpr, sig_ret = "", ""
@@ -717,6 +723,9 @@ def gen_callback(cx, cbt, ct, abi, pname):
             leaf = "(%s::from_bits(vs::CB_RET as _)).to_bits() as i128" % mtype(cm, fn.ret, cx.names)
         elif fn.ret.kind == "bool":
             leaf = "(vs::CB_RET & 1) as i128"
+        elif fn.ret.kind == "enum":
+            consts = cm.enums[fn.ret.tag]["consts"]
+            leaf = "(match vs::CB_RET & 7 { %s _ => %d }) as i128" % (" ".join("%d => %d," % (i, c[1]) for i, c in enumerate(consts[:-1])), consts[-1][1])
         else:
             leaf = "(vs::CB_RET as %s) as i128" % mtype(cm, fn.ret, cx.names)
         exp_after.append("exp.push(%s);" % leaf)
